@@ -155,6 +155,7 @@ def step (w : W) (toks : List String) : W × String :=
         | .ok b => "ok " ++ toHex b.bytes
         | r => showFail r)
   | ["hother", _] => (w, "ok")
+  | ["hcopy", _] => (w, "ok")      -- the coder object is copied / pickled on the implementation side; the model has no coder state
   | ["hrt", h] =>
     (w, match huffDecodeBuf (huffEncode Gen.codes (parseHex h)) with
         | .ok b => "ok " ++ toHex b.bytes
